@@ -54,6 +54,16 @@ CLAIMED = {
              'Random deeper trees recorded from glom are validated by TLC.',
         design='4/C08',
         technique='TLA+ frame machine + lexical law (TLC), spec mutant, replay with mode probes, hook-trace validation by TLC'),
+    'C07': dict(
+        text='The static visibility law (which binder a reader sees: earlier direct steps of enclosing chains -- Pipe, Auto-mode tuple, '
+             'Switch key->value, match-dict key->value --, Spec(scope=) ancestors, then the caller scope; globals by execution order) is '
+             'stated on the spec tree; TLC checks that the frame mechanism of GlomFrames (ChainMap parents + chain_child re-parenting) '
+             'gives every reader exactly that, for every placement of binders and readers in trees up to the bound.  Each tree is '
+             'replayed with real S / A / Spec(scope=) / A.globals specs and logging readers, called twice (second call identical, '
+             "caller's mapping unchanged); random deeper trees with two names recorded from glom are validated by TLC against law and "
+             'mechanism; Vars / globals lifetime by two-call cases.',
+        design='4/C07',
+        technique='TLA+ frame machine + static visibility law (TLC), replay with logging readers, TLC validation of recorded reader logs'),
 }
 
 PENDING_REASON = 'check not built yet (planned: see DESIGN.md section 4); not claimed until both binding directions exist'
